@@ -2,76 +2,112 @@
     Only statements here; proofs are in Proofs/CorsProofs.v.
 
     Vocabulary (Model/Cors.v): [respond] = primes + [handle_cache] + the with_cors Package, as one
-    request sees it on a connection with scheme [conn_scheme]; [cors_spec] = the property's decision
-    function; [req_verdict] = [cors_spec] on a request with the rule found by [RuleSet::get];
-    [stable] = the complement of the known class acao_path_rewrite (uri_redirect moves the path to
-    a path with another rule); [no_internal] = the cache holds nothing under an internal route (an
-    invariant of every history, [cors_cache_independent] (a)); [http::Uri::try_from] is the
-    parameter [parse] (arbitrary); the application's handlers are the parameter [app] (arbitrary,
-    not mounted on internal routes, not reading the Origin header). *)
+    request sees it on a connection with scheme [conn_scheme]; its first arguments name the version of
+    the code: [is_part_of_origin] / [resolved_path] / [true] (resolve_prime keeps the requested URI) /
+    [SP_NONE] (cache preference of the refusal) are the code as it is now, the [.._v0] / [false] /
+    [SP_FULL] variants the code before the repairs (only in the [.._refuted] witnesses).
+    [cors_spec] = the property's decision function for one path; [cors_spec2] = the same for the two
+    spellings of a path (as requested, and [resolved_path]: percent-decoded, repeated '/' collapsed —
+    the path a file is read from): allowed for both; [req_verdict] = [cors_spec2] on a request with the
+    rule found by [RuleSet::get]; [no_internal] = the cache holds nothing under an internal route (an
+    invariant of every history, [cors_cache_independent] (a)).  Arguments of the theorems (arbitrary):
+    [parse] = [http::Uri::try_from]; [filt] = [host.options.status_code_cache_filter]; [app] = the
+    application's request handlers — Prepare extensions bound to a path or to a predicate and the
+    files of the host — not mounted on internal routes and not reading the Origin header. *)
 From KV Require Import Bytes RuleSet RuleSetProofs Cors CorsProofs.
 Open Scope N_scope.
 
-(** the code's check ([Cors::check_cors_request]) is the decision function, for every rule lookup *)
+(** the code's check ([Cors::check_cors_request]) is the decision function, for every rule lookup and
+    every path normalisation *)
 Theorem cors_check_is_spec :
-  forall (parse : bytes -> option uparts) (get : bytes -> option allow_list) (m : N) (s a p : bytes) (o : option bytes),
+  forall (parse : bytes -> option uparts) (norm : bytes -> bytes) (get : bytes -> option allow_list) (m : N) (s a p : bytes) (o : option bytes),
     mem_byte c_colon s = false ->
-    check_cors_request parse is_part_of_origin get m (Some s) (Some a) p o = verdict_grant (cors_spec parse get m s a p o).
+    check_cors_request parse is_part_of_origin norm get m (Some s) (Some a) p o = verdict_grant (cors_spec2 norm parse get m s a p o).
 Proof. exact check_is_spec. Qed.
+
+(** a request that is not refused is allowed by the rule of the path as requested AND by the rule of the
+    resolved path *)
+Theorem cors_allowed_by_both_rules :
+  forall (norm : bytes -> bytes) (parse : bytes -> option uparts) (get : bytes -> option allow_list) (m : N) (s a p : bytes) (o : option bytes),
+    cors_spec2 norm parse get m s a p o <> VRefuse ->
+    cors_spec parse get m s a p o <> VRefuse /\ cors_spec parse get m s a (norm p) o <> VRefuse.
+Proof. exact spec2_both. Qed.
+
+(** ... so whatever spelling of a path reaches a file (percent escapes, repeated slashes), a request that is
+    let through is allowed by the most specific rule of that file's own path *)
+Theorem cors_rule_of_served_file :
+  forall (parse : bytes -> option uparts) (get : bytes -> option allow_list) (m : N) (s a p : bytes) (o : option bytes)
+         (files : list (bytes * bytes)) (rel content : bytes),
+    fs_find files p = Some (rel, content) ->
+    cors_spec2 resolved_path parse get m s a p o <> VRefuse ->
+    cors_spec parse get m s a (c_slash :: rel) o <> VRefuse.
+Proof. exact served_file_rule. Qed.
 
 (** ... and the rule it uses is the most specific rule of the configuration history (last added wins),
     whatever order [sort_unstable_by] leaves the vector in *)
 Theorem cors_verdict_most_specific_rule :
-  forall (parse : bytes -> option uparts) (conn_scheme : bytes) (cfg : ccfg) (hist : list (bytes * allow_list)) (r : request) (a : bytes),
+  forall (parse : bytes -> option uparts) (norm : bytes -> bytes) (conn_scheme : bytes) (cfg : ccfg) (hist : list (bytes * allow_list)) (r : request) (a : bytes),
     rs_reach hist (cc_rules cfg) -> header H_HOST r = Some a ->
-    req_verdict parse conn_scheme cfg r
-    = cors_spec parse (hist_lookup cfg hist) (rq_method r) conn_scheme a (rq_path r) (header H_ORIGIN r).
+    req_verdict parse norm conn_scheme cfg r
+    = cors_spec2 norm parse (hist_lookup cfg hist) (rq_method r) conn_scheme a (rq_path r) (header H_ORIGIN r).
 Proof. exact verdict_most_specific. Qed.
 
 (** refused => 403, no handler invoked (empty log), no header at all (so no access-control-allow-origin),
     cache untouched; allowed or same origin (not a preflight) => the reply and the new server state of
-    the same request without Origin, plus access-control-allow-origin = the origin bytes (with_cors) *)
+    the same request without Origin, plus access-control-allow-origin = the origin bytes (with_cors).
+    For every status filter, every handler set, also when [uri_redirect] rewrites the path. *)
 Theorem cors_decision :
-  forall (parse : bytes -> option uparts) (conn_scheme : bytes) (cfg : ccfg) (app : app_handlers) (c : cache) (now : N) (r0 : request) (a o : bytes),
+  forall (parse : bytes -> option uparts) (filt : N -> bool) (conn_scheme : bytes) (cfg : ccfg) (app : app_handlers) (c : cache) (now : N) (r0 : request) (a o : bytes),
     mem_byte c_colon conn_scheme = false -> app_external app -> app_ignores_origin app -> no_internal c ->
-    header H_HOST r0 = Some a -> header H_ORIGIN r0 = Some o -> sanitize_ok_fix r0 = true -> stable cfg r0 ->
-    (req_verdict parse conn_scheme cfg r0 = VRefuse ->
-       respond parse is_part_of_origin conn_scheme cfg app (c, tt) now r0
+    header H_HOST r0 = Some a -> header H_ORIGIN r0 = Some o -> sanitize_ok_pct r0 = true ->
+    (req_verdict parse resolved_path conn_scheme cfg r0 = VRefuse ->
+       respond parse is_part_of_origin resolved_path true SP_NONE filt conn_scheme cfg app (c, tt) now r0
        = ((c, tt), mkWire 403 [] (if rq_method r0 =? M_HEAD then [] else DENIED) []))
-    /\ (req_verdict parse conn_scheme cfg r0 <> VRefuse -> pf_shape r0 = false ->
-       respond parse is_part_of_origin conn_scheme cfg app (c, tt) now r0
-       = (fst (respond parse is_part_of_origin conn_scheme cfg app (c, tt) now (strip_origin r0)),
-          let w := snd (respond parse is_part_of_origin conn_scheme cfg app (c, tt) now (strip_origin r0)) in
+    /\ (req_verdict parse resolved_path conn_scheme cfg r0 <> VRefuse -> pf_shape r0 = false ->
+       respond parse is_part_of_origin resolved_path true SP_NONE filt conn_scheme cfg app (c, tt) now r0
+       = (fst (respond parse is_part_of_origin resolved_path true SP_NONE filt conn_scheme cfg app (c, tt) now (strip_origin r0)),
+          let w := snd (respond parse is_part_of_origin resolved_path true SP_NONE filt conn_scheme cfg app (c, tt) now (strip_origin r0)) in
           mkWire (w_status w) (if cc_with_cors cfg then set_header H_ACAO o (w_headers w) else w_headers w) (w_body w) (w_log w))).
 Proof. exact decision_proof. Qed.
 
 (** the same after every history of requests (same-origin, allowed, refused, unsanitary; at any times)
     and cache clears, starting from the empty cache *)
 Theorem cors_decision_histories :
-  forall (parse : bytes -> option uparts) (conn_scheme : bytes) (cfg : ccfg) (app : app_handlers) (ops : list (cop * N)) (t0 now : N) (r0 : request) (a o : bytes),
+  forall (parse : bytes -> option uparts) (filt : N -> bool) (conn_scheme : bytes) (cfg : ccfg) (app : app_handlers) (ops : list (cop * N)) (t0 now : N) (r0 : request) (a o : bytes),
     mem_byte c_colon conn_scheme = false -> app_external app -> app_ignores_origin app ->
-    header H_HOST r0 = Some a -> header H_ORIGIN r0 = Some o -> sanitize_ok_fix r0 = true -> stable cfg r0 ->
-    let st := run_conn_state parse is_part_of_origin conn_scheme cfg app ([], tt) t0 ops in
-    (req_verdict parse conn_scheme cfg r0 = VRefuse ->
-       respond parse is_part_of_origin conn_scheme cfg app st now r0
+    header H_HOST r0 = Some a -> header H_ORIGIN r0 = Some o -> sanitize_ok_pct r0 = true ->
+    let st := run_conn_state parse is_part_of_origin resolved_path true SP_NONE filt conn_scheme cfg app ([], tt) t0 ops in
+    (req_verdict parse resolved_path conn_scheme cfg r0 = VRefuse ->
+       respond parse is_part_of_origin resolved_path true SP_NONE filt conn_scheme cfg app st now r0
        = (st, mkWire 403 [] (if rq_method r0 =? M_HEAD then [] else DENIED) []))
-    /\ (req_verdict parse conn_scheme cfg r0 <> VRefuse -> pf_shape r0 = false ->
-       respond parse is_part_of_origin conn_scheme cfg app st now r0
-       = (fst (respond parse is_part_of_origin conn_scheme cfg app st now (strip_origin r0)),
-          let w := snd (respond parse is_part_of_origin conn_scheme cfg app st now (strip_origin r0)) in
+    /\ (req_verdict parse resolved_path conn_scheme cfg r0 <> VRefuse -> pf_shape r0 = false ->
+       respond parse is_part_of_origin resolved_path true SP_NONE filt conn_scheme cfg app st now r0
+       = (fst (respond parse is_part_of_origin resolved_path true SP_NONE filt conn_scheme cfg app st now (strip_origin r0)),
+          let w := snd (respond parse is_part_of_origin resolved_path true SP_NONE filt conn_scheme cfg app st now (strip_origin r0)) in
           mkWire (w_status w) (if cc_with_cors cfg then set_header H_ACAO o (w_headers w) else w_headers w) (w_body w) (w_log w))).
 Proof. exact decision_histories_proof. Qed.
+
+(** an allowed request's response carries exactly one access-control-allow-origin and it is the origin
+    bytes, whatever header of that name the handler (or the cached response) had *)
+Theorem cors_acao_exact :
+  forall (parse : bytes -> option uparts) (filt : N -> bool) (conn_scheme : bytes) (cfg : ccfg) (app : app_handlers) (st : state unit) (now : N) (r0 : request) (a o : bytes),
+    mem_byte c_colon conn_scheme = false -> app_ignores_origin app ->
+    header H_HOST r0 = Some a -> header H_ORIGIN r0 = Some o -> sanitize_ok_pct r0 = true ->
+    req_verdict parse resolved_path conn_scheme cfg r0 <> VRefuse -> pf_shape r0 = false -> cc_with_cors cfg = true ->
+    let w := snd (respond parse is_part_of_origin resolved_path true SP_NONE filt conn_scheme cfg app st now r0) in
+    assoc H_ACAO (w_headers w) = Some o /\ count_header H_ACAO (w_headers w) = 1%nat.
+Proof. exact acao_exact_proof. Qed.
 
 (** a preflight that is not refused: 204 with exactly the rule's methods ("*" = all), headers and
     max-age (sub-second part rounded up), no handler, cache untouched — in every cache state *)
 Theorem preflight_eq :
-  forall (parse : bytes -> option uparts) (conn_scheme : bytes) (cfg : ccfg) (app : app_handlers),
+  forall (parse : bytes -> option uparts) (filt : N -> bool) (conn_scheme : bytes) (cfg : ccfg) (app : app_handlers),
     mem_byte c_colon conn_scheme = false -> app_external app ->
     forall (c : cache) (now : N) (r0 : request) (a o : bytes) (ms : option (list N)) (hs : list bytes) (t : N),
-    header H_HOST r0 = Some a -> sanitize_ok_fix r0 = true -> no_internal c -> stable cfg r0 ->
+    header H_HOST r0 = Some a -> sanitize_ok_pct r0 = true -> no_internal c ->
     pf_shape r0 = true -> header H_ORIGIN r0 = Some o ->
-    verdict_grant (req_verdict parse conn_scheme cfg r0) = Some (ms, hs, t) ->
-    respond parse is_part_of_origin conn_scheme cfg app (c, tt) now r0
+    verdict_grant (req_verdict parse resolved_path conn_scheme cfg r0) = Some (ms, hs, t) ->
+    respond parse is_part_of_origin resolved_path true SP_NONE filt conn_scheme cfg app (c, tt) now r0
     = ((c, tt), mkWire 204 (let h := [(H_ACAM, methods_bytes ms); (H_ACAH, join_comma hs); (H_ACMA, dec (max_age_secs t))] in
                             if cc_with_cors cfg then h ++ [(H_ACAO, o)] else h) [] []).
 Proof. exact preflight_reply. Qed.
@@ -79,36 +115,39 @@ Proof. exact preflight_reply. Qed.
 (** (a) no history of requests (at any times) and cache clears stores anything under an internal route;
     (b) in all such cache states a refused request and a preflight get one and the same reply and leave
     the cache as it is (the allowed case is [cors_decision]: in *every* state the reply is that of the
-    request without Origin in that state, plus the header) *)
+    request without Origin in that state, plus the header) — for every status filter *)
 Theorem cors_cache_independent :
-  forall (parse : bytes -> option uparts) (conn_scheme : bytes) (cfg : ccfg) (app : app_handlers) (r0 : request) (a : bytes),
+  forall (parse : bytes -> option uparts) (filt : N -> bool) (conn_scheme : bytes) (cfg : ccfg) (app : app_handlers) (r0 : request) (a : bytes),
     mem_byte c_colon conn_scheme = false -> app_external app ->
-    header H_HOST r0 = Some a -> sanitize_ok_fix r0 = true -> stable cfg r0 ->
-    (forall ops now, no_internal (fst (run_conn_state parse is_part_of_origin conn_scheme cfg app ([], tt) now ops)))
-    /\ (req_verdict parse conn_scheme cfg r0 = VRefuse \/ (pf_shape r0 = true) ->
+    header H_HOST r0 = Some a -> sanitize_ok_pct r0 = true ->
+    (forall ops now, no_internal (fst (run_conn_state parse is_part_of_origin resolved_path true SP_NONE filt conn_scheme cfg app ([], tt) now ops)))
+    /\ (req_verdict parse resolved_path conn_scheme cfg r0 = VRefuse \/ (pf_shape r0 = true) ->
         forall c1 c2 now1 now2, no_internal c1 -> no_internal c2 ->
-          snd (respond parse is_part_of_origin conn_scheme cfg app (c1, tt) now1 r0)
-          = snd (respond parse is_part_of_origin conn_scheme cfg app (c2, tt) now2 r0)
-          /\ fst (respond parse is_part_of_origin conn_scheme cfg app (c1, tt) now1 r0) = (c1, tt)).
+          snd (respond parse is_part_of_origin resolved_path true SP_NONE filt conn_scheme cfg app (c1, tt) now1 r0)
+          = snd (respond parse is_part_of_origin resolved_path true SP_NONE filt conn_scheme cfg app (c2, tt) now2 r0)
+          /\ fst (respond parse is_part_of_origin resolved_path true SP_NONE filt conn_scheme cfg app (c1, tt) now1 r0) = (c1, tt)).
 Proof. exact cache_independent_proof. Qed.
 
 (** a request whose Origin is its own scheme://authority is served as if it had no Origin *)
 Theorem same_origin_unaffected :
-  forall (parse : bytes -> option uparts) (conn_scheme : bytes) (cfg : ccfg) (app : app_handlers) (st : state unit) (now : N) (r0 : request) (a o : bytes),
+  forall (parse : bytes -> option uparts) (filt : N -> bool) (conn_scheme : bytes) (cfg : ccfg) (app : app_handlers) (st : state unit) (now : N) (r0 : request) (a o : bytes),
     mem_byte c_colon conn_scheme = false -> app_ignores_origin app ->
-    header H_HOST r0 = Some a -> header H_ORIGIN r0 = Some o -> sanitize_ok_fix r0 = true -> stable cfg r0 ->
-    req_verdict parse conn_scheme cfg r0 = VSame -> pf_shape r0 = false ->
-    respond parse is_part_of_origin conn_scheme cfg app st now r0
-    = (fst (respond parse is_part_of_origin conn_scheme cfg app st now (strip_origin r0)),
-       let w := snd (respond parse is_part_of_origin conn_scheme cfg app st now (strip_origin r0)) in
+    header H_HOST r0 = Some a -> header H_ORIGIN r0 = Some o -> sanitize_ok_pct r0 = true ->
+    req_verdict parse resolved_path conn_scheme cfg r0 = VSame -> pf_shape r0 = false ->
+    respond parse is_part_of_origin resolved_path true SP_NONE filt conn_scheme cfg app st now r0
+    = (fst (respond parse is_part_of_origin resolved_path true SP_NONE filt conn_scheme cfg app st now (strip_origin r0)),
+       let w := snd (respond parse is_part_of_origin resolved_path true SP_NONE filt conn_scheme cfg app st now (strip_origin r0)) in
        mkWire (w_status w) (if cc_with_cors cfg then set_header H_ACAO o (w_headers w) else w_headers w) (w_body w) (w_log w)).
 Proof. exact same_origin_proof. Qed.
 
-(** the known class: without [stable] the no-header clause of [cors_decision] fails *)
-Theorem acao_path_rewrite_refuted :
+(** ---- the repaired defects: the statement fails on the model of the code as it was ---- *)
+
+(** before 9dff57d (resolve_prime did not keep the requested URI; former known class acao_path_rewrite):
+    a refused request got 403 WITH access-control-allow-origin *)
+Theorem acao_path_rewrite_v0_refuted :
   exists (cfg : ccfg) (r : request),
-    app_external (marker_app (cc_handlers cfg)) /\ sanitize_ok_fix r = true /\ req_verdict parse_uri CONN_SCHEME cfg r = VRefuse /\ ~ stable cfg r /\
-    snd (respond parse_uri is_part_of_origin CONN_SCHEME cfg (marker_app (cc_handlers cfg)) ([], tt) 0 r)
+    app_external (marker_app (cc_handlers cfg)) /\ sanitize_ok_pct r = true /\ req_verdict parse_uri resolved_path CONN_SCHEME cfg r = VRefuse /\ ~ stable cfg r /\
+    snd (respond parse_uri is_part_of_origin resolved_path false SP_NONE default_filter CONN_SCHEME cfg (marker_app (cc_handlers cfg)) ([], tt) 0 r)
     = mkWire 403 [(H_ACAO, B "https://evil.example")] DENIED [].
 Proof.
   exists ex_cfg, (ex_req M_GET (B "/api/") [(H_ORIGIN, B "https://evil.example")]).
@@ -116,12 +155,12 @@ Proof.
   apply marker_app_external. intros p sp [H|[H|[]]]; inversion H; subst; reflexivity.
 Qed.
 
-(** the code before the repair (is_part_of_origin_v0): Origin: null, refused by the rules, ran the handler
+(** before c64bc9b (is_part_of_origin_v0): Origin: null, refused by the rules, ran the handler
     and got access-control-allow-origin: null *)
 Theorem null_origin_v0_refuted :
   exists (cfg : ccfg) (r : request),
-    app_external (marker_app (cc_handlers cfg)) /\ sanitize_ok_fix r = true /\ req_verdict parse_uri CONN_SCHEME cfg r = VRefuse /\ stable cfg r /\
-    snd (respond parse_uri is_part_of_origin_v0 CONN_SCHEME cfg (marker_app (cc_handlers cfg)) ([], tt) 0 r)
+    app_external (marker_app (cc_handlers cfg)) /\ sanitize_ok_pct r = true /\ req_verdict parse_uri resolved_path CONN_SCHEME cfg r = VRefuse /\
+    snd (respond parse_uri is_part_of_origin_v0 resolved_path true SP_NONE default_filter CONN_SCHEME cfg (marker_app (cc_handlers cfg)) ([], tt) 0 r)
     = mkWire 200 [(H_ACAO, B "null")] (B "h0:/api/x") [B "h0"].
 Proof.
   exists ex_cfg, (ex_req M_GET (B "/api/x") [(H_ORIGIN, B "null")]).
@@ -129,37 +168,93 @@ Proof.
   apply marker_app_external. intros p sp [H|[H|[]]]; inversion H; subst; reflexivity.
 Qed.
 
+(** before 43f721b (the rule was looked up with the path as spelled only): a percent-encoded spelling of a
+    file's path was judged by another rule and the file was served to an origin its own rule refuses *)
+Theorem raw_path_v0_refuted :
+  exists (cfg : ccfg) (st : site) (r : request) (rel : bytes),
+    sanitize_ok_pct r = true /\ fs_find (st_files st) (rq_path r) = Some (rel, B "SECRET") /\
+    cors_spec parse_uri (rs_get (effective_rules cfg)) (rq_method r) CONN_SCHEME (B "localhost") (c_slash :: rel) (header H_ORIGIN r) = VRefuse /\
+    snd (respond parse_uri is_part_of_origin resolved_path_v0 true SP_NONE default_filter CONN_SCHEME cfg (site_app [] (Some st)) ([], tt) 0 r)
+    = mkWire 200 [(H_ACAO, B "https://evil.example")] (B "SECRET") [].
+Proof.
+  exists ex_cfg_fs, ex_site, (ex_req M_GET (B "/%61pi/secret.json") [(H_ORIGIN, B "https://evil.example")]), (B "api/secret.json").
+  split; [vm_compute; reflexivity|]. exact raw_path_v0_witness.
+Qed.
+
+(** before 8cf6420 (the refusal had the server cache preference Full): with a status filter that caches 403
+    the refusal was stored under the request's own path and served to a request without Origin *)
+Theorem denied_cached_v0_refuted :
+  exists (cfg : ccfg) (bad plain : request),
+    header H_ORIGIN plain = None /\ sanitize_ok_pct plain = true /\
+    let st := fst (respond parse_uri is_part_of_origin resolved_path true SP_FULL cache_all_filter CONN_SCHEME cfg (marker_app (cc_handlers cfg)) ([], tt) 0 bad) in
+    fst st <> [] /\
+    snd (respond parse_uri is_part_of_origin resolved_path true SP_FULL cache_all_filter CONN_SCHEME cfg (marker_app (cc_handlers cfg)) st 0 plain)
+    = mkWire 403 [] DENIED [].
+Proof.
+  exists ex_cfg, (ex_req M_GET (B "/api/x") [(H_ORIGIN, B "https://evil.example")]), (ex_req M_GET (B "/api/x") []).
+  split; [reflexivity|]. split; [vm_compute; reflexivity|]. exact denied_cached_v0_witness.
+Qed.
+
 (** ---- non-vacuity: concrete requests meeting the hypotheses, one per branch ---- *)
 Example ex_hypotheses :
-  mem_byte c_colon CONN_SCHEME = false /\ no_internal [] /\ rs_reach ex_hist (cc_rules ex_cfg).
-Proof. split; [reflexivity|]. split; [intros k e []|apply rs_build_reach]. Qed.
+  mem_byte c_colon CONN_SCHEME = false /\ no_internal [] /\ rs_reach ex_hist (cc_rules ex_cfg)
+  /\ app_external ex_app_fs /\ app_ignores_origin ex_app_fs.
+Proof.
+  split; [reflexivity|]. split; [intros k e []|]. split; [apply rs_build_reach|].
+  split; [apply site_app_external|apply site_app_ignores_origin].
+Qed.
 (* refused: other host; warm cache (the same path was just served to a request without Origin) *)
 Example ex_refused :
   let r := ex_req M_GET (B "/api/x") [(H_ORIGIN, B "https://evil.example")] in
-  let st := fst (respond parse_uri is_part_of_origin CONN_SCHEME ex_cfg (marker_app (cc_handlers ex_cfg)) ([], tt) 0 (ex_req M_GET (B "/api/x") [])) in
-  sanitize_ok_fix r = true /\ stable ex_cfg r /\ req_verdict parse_uri CONN_SCHEME ex_cfg r = VRefuse /\ fst st <> [] /\
-  snd (respond parse_uri is_part_of_origin CONN_SCHEME ex_cfg (marker_app (cc_handlers ex_cfg)) st 0 r) = mkWire 403 [] DENIED [].
+  let st := fst (respond parse_uri is_part_of_origin resolved_path true SP_NONE default_filter CONN_SCHEME ex_cfg (marker_app (cc_handlers ex_cfg)) ([], tt) 0 (ex_req M_GET (B "/api/x") [])) in
+  sanitize_ok_pct r = true /\ req_verdict parse_uri resolved_path CONN_SCHEME ex_cfg r = VRefuse /\ fst st <> [] /\
+  snd (respond parse_uri is_part_of_origin resolved_path true SP_NONE default_filter CONN_SCHEME ex_cfg (marker_app (cc_handlers ex_cfg)) st 0 r) = mkWire 403 [] DENIED [].
 Proof. cbv zeta. repeat split; try (vm_compute; reflexivity). vm_compute. discriminate. Qed.
 (* allowed: listed origin, served from the warm cache (empty handler log), header added *)
 Example ex_allowed :
   let r := ex_req M_GET (B "/api/x") [(H_ORIGIN, B "https://icelk.dev")] in
-  let st := fst (respond parse_uri is_part_of_origin CONN_SCHEME ex_cfg (marker_app (cc_handlers ex_cfg)) ([], tt) 0 (ex_req M_GET (B "/api/x") [])) in
-  sanitize_ok_fix r = true /\ stable ex_cfg r /\ pf_shape r = false /\
-  req_verdict parse_uri CONN_SCHEME ex_cfg r = VAllow (Some [M_GET; M_HEAD; M_OPTIONS], [B "content-type"], 1500) /\
-  snd (respond parse_uri is_part_of_origin CONN_SCHEME ex_cfg (marker_app (cc_handlers ex_cfg)) st 0 r) = mkWire 200 [(H_ACAO, B "https://icelk.dev")] (B "h0:/api/x") [].
+  let st := fst (respond parse_uri is_part_of_origin resolved_path true SP_NONE default_filter CONN_SCHEME ex_cfg (marker_app (cc_handlers ex_cfg)) ([], tt) 0 (ex_req M_GET (B "/api/x") [])) in
+  sanitize_ok_pct r = true /\ pf_shape r = false /\
+  req_verdict parse_uri resolved_path CONN_SCHEME ex_cfg r = VAllow (Some [M_GET; M_HEAD; M_OPTIONS], [B "content-type"], 1500) /\
+  snd (respond parse_uri is_part_of_origin resolved_path true SP_NONE default_filter CONN_SCHEME ex_cfg (marker_app (cc_handlers ex_cfg)) st 0 r) = mkWire 200 [(H_ACAO, B "https://icelk.dev")] (B "h0:/api/x") [].
 Proof. cbv zeta. repeat split; vm_compute; reflexivity. Qed.
-(* scheme and port matter *)
+(* the former known class: the path is rewritten to one with another rule, the requested path decides *)
+Example ex_rewritten :
+  let r := ex_req M_GET (B "/api/") [(H_ORIGIN, B "https://evil.example")] in
+  sanitize_ok_pct r = true /\ ~ stable ex_cfg r /\ req_verdict parse_uri resolved_path CONN_SCHEME ex_cfg r = VRefuse /\
+  snd (respond parse_uri is_part_of_origin resolved_path true SP_NONE default_filter CONN_SCHEME ex_cfg (marker_app (cc_handlers ex_cfg)) ([], tt) 0 r) = mkWire 403 [] DENIED [].
+Proof. cbv zeta. split; [vm_compute; reflexivity|]. split; [unfold stable; vm_compute; discriminate|]. split; vm_compute; reflexivity. Qed.
+(* files: the percent-encoded and the double-slash spelling of a file's path are judged by the file's rule too *)
+Example ex_served_file :
+  let r1 := ex_req M_GET (B "/%61pi/secret.json") [(H_ORIGIN, B "https://evil.example")] in
+  let r2 := ex_req M_GET (B "/api//secret.json") [(H_ORIGIN, B "https://icelk.dev")] in
+  fs_find (st_files ex_site) (rq_path r1) = Some (B "api/secret.json", B "SECRET") /\
+  fs_find (st_files ex_site) (rq_path r2) = Some (B "api/secret.json", B "SECRET") /\
+  req_verdict parse_uri resolved_path CONN_SCHEME ex_cfg_fs r1 = VRefuse /\
+  snd (respond parse_uri is_part_of_origin resolved_path true SP_NONE default_filter CONN_SCHEME ex_cfg_fs ex_app_fs ([], tt) 0 r1) = mkWire 403 [] DENIED [] /\
+  snd (respond parse_uri is_part_of_origin resolved_path true SP_NONE default_filter CONN_SCHEME ex_cfg_fs ex_app_fs ([], tt) 0 r2)
+  = mkWire 200 [(H_ACAO, B "https://icelk.dev")] (B "SECRET") [].
+Proof. cbv zeta. repeat split; vm_compute; reflexivity. Qed.
+(* scheme and port matter; extension methods are methods *)
 Example ex_scheme_port :
-  req_verdict parse_uri CONN_SCHEME ex_cfg (ex_req M_GET (B "/api/x") [(H_ORIGIN, B "http://icelk.dev")]) = VRefuse /\
-  req_verdict parse_uri CONN_SCHEME ex_cfg (ex_req M_GET (B "/api/x") [(H_ORIGIN, B "https://icelk.dev:8443")]) = VRefuse /\
-  req_verdict parse_uri CONN_SCHEME ex_cfg (ex_req M_POST (B "/api/x") [(H_ORIGIN, B "https://icelk.dev")]) = VRefuse /\
-  req_verdict parse_uri CONN_SCHEME ex_cfg (ex_req M_GET (B "/api/x") [(H_ORIGIN, B "http://localhost")]) = VSame /\
-  req_verdict parse_uri CONN_SCHEME ex_cfg (ex_req M_GET (B "/api/x") [(H_ORIGIN, B "null")]) = VRefuse.
-Proof. repeat split; vm_compute; reflexivity. Qed.
+  req_verdict parse_uri resolved_path CONN_SCHEME ex_cfg (ex_req M_GET (B "/api/x") [(H_ORIGIN, B "http://icelk.dev")]) = VRefuse /\
+  req_verdict parse_uri resolved_path CONN_SCHEME ex_cfg (ex_req M_GET (B "/api/x") [(H_ORIGIN, B "https://icelk.dev:8443")]) = VRefuse /\
+  req_verdict parse_uri resolved_path CONN_SCHEME ex_cfg (ex_req M_POST (B "/api/x") [(H_ORIGIN, B "https://icelk.dev")]) = VRefuse /\
+  req_verdict parse_uri resolved_path CONN_SCHEME ex_cfg (ex_req (M_EXT + n_of_bytes 1 (B "get")) (B "/api/x") [(H_ORIGIN, B "https://icelk.dev")]) = VRefuse /\
+  req_verdict parse_uri resolved_path CONN_SCHEME ex_cfg (ex_req M_GET (B "/api/x") [(H_ORIGIN, B "https://evil@icelk.dev")]) <> VRefuse /\
+  req_verdict parse_uri resolved_path CONN_SCHEME ex_cfg (ex_req M_GET (B "/api/x") [(H_ORIGIN, B "https://icelk.dev@evil.example")]) = VRefuse /\
+  req_verdict parse_uri resolved_path CONN_SCHEME ex_cfg (ex_req M_GET (B "/api/x") [(H_ORIGIN, B "http://localhost")]) = VSame /\
+  req_verdict parse_uri resolved_path CONN_SCHEME ex_cfg (ex_req M_GET (B "/api/x") [(H_ORIGIN, B "null")]) = VRefuse.
+Proof. repeat split; try (vm_compute; reflexivity). vm_compute. discriminate. Qed.
 (* preflight: max-age 1.5 s is reported as 2 *)
 Example ex_preflight :
   let r := ex_req M_OPTIONS (B "/api/x") [(H_ORIGIN, B "https://icelk.dev"); (H_ACRM, B "PUT")] in
-  pf_shape r = true /\ stable ex_cfg r /\
-  snd (respond parse_uri is_part_of_origin CONN_SCHEME ex_cfg (marker_app (cc_handlers ex_cfg)) ([], tt) 0 r)
+  pf_shape r = true /\
+  snd (respond parse_uri is_part_of_origin resolved_path true SP_NONE default_filter CONN_SCHEME ex_cfg (marker_app (cc_handlers ex_cfg)) ([], tt) 0 r)
   = mkWire 204 [(H_ACAM, B "GET, HEAD, OPTIONS"); (H_ACAH, B "content-type"); (H_ACMA, B "2"); (H_ACAO, B "https://icelk.dev")] [] [].
 Proof. cbv zeta. repeat split; vm_compute; reflexivity. Qed.
+(* the refusal is not cached under a status filter that caches everything *)
+Example ex_cache_all :
+  let bad := ex_req M_GET (B "/api/x") [(H_ORIGIN, B "https://evil.example")] in
+  fst (respond parse_uri is_part_of_origin resolved_path true SP_NONE cache_all_filter CONN_SCHEME ex_cfg (marker_app (cc_handlers ex_cfg)) ([], tt) 0 bad) = ([], tt).
+Proof. vm_compute. reflexivity. Qed.
